@@ -4789,14 +4789,6 @@ where
                         self.insertion_state.last_inserted_cell = None;
                     }
                     self.maybe_check_after_insertion()?;
-                    // Failpoint: the insertion is committed in the Tds and the post-steps ran; the
-                    // call then fails like a post-step failure (Delaunay check).
-                    #[cfg(delaunay_verif)]
-                    if crate::core::util::verif_failpoints::hit("dt.insert.after_post_steps") {
-                        return Err(InsertionError::DelaunayValidationFailed {
-                            message: "verif failpoint: dt.insert.after_post_steps".to_string(),
-                        });
-                    }
                     Ok(v_key)
                 }
                 InsertionOutcome::Skipped { error } => Err(error),
@@ -4901,12 +4893,6 @@ where
                         hint = None;
                     }
                     self.maybe_check_after_insertion()?;
-                    #[cfg(delaunay_verif)]
-                    if crate::core::util::verif_failpoints::hit("dt.insert_stats.after_post_steps") {
-                        return Err(InsertionError::DelaunayValidationFailed {
-                            message: "verif failpoint: dt.insert_stats.after_post_steps".to_string(),
-                        });
-                    }
                     InsertionOutcome::Inserted { vertex_key, hint }
                 }
                 other @ InsertionOutcome::Skipped { .. } => other,
@@ -5099,6 +5085,14 @@ where
         let insertion_count = self.insertion_state.delaunay_repair_insertion_count;
         if !policy.should_check(insertion_count) {
             return Ok(());
+        }
+
+        // Failpoint: the scheduled per-insertion Delaunay check reports a violation.
+        #[cfg(delaunay_verif)]
+        if crate::core::util::verif_failpoints::hit("dt.insert.check_fails") {
+            return Err(InsertionError::DelaunayValidationFailed {
+                message: "verif failpoint: dt.insert.check_fails".to_string(),
+            });
         }
 
         self.is_valid()
